@@ -1444,7 +1444,9 @@ class StateEngine(object):
             if error_type == "States.TaskFailed":
                 boiler_plate = ""
             elif state_machine_type == "STANDARD":
-                id = len(self.execution_history[execution_arn])
+                # The history may not exist yet if handling a message
+                # redelivered after a restart, see update_execution_history.
+                id = len(self.execution_history.get(execution_arn, []))
                 boiler_plate = (
                     "An error occurred while executing the state "
                     "\"{}\" (entered at the event id #{}). "
